@@ -76,7 +76,7 @@ NOT_APPLICABLE = {
     'C13': 'statement about the real function e^x to one ulp; contracts here are integer-only and the Taylor loop has no termination measure (DESIGN.md section 7)',
     'C17': 'feature-gated code generic over foreign serde traits and strings; no contract within reach (DESIGN.md section 7)',
 }
-for _p in ['C05', 'C14', 'C16']:
+for _p in ['C05', 'C14']:
     NOT_APPLICABLE[_p] = _WIP
 
 _NOTE_COMMON = ('Assumed: num-bigint/num-traits/num-integer contracts (spec/shim_base.rs, vf/shimgen.py), std specs, '
@@ -208,6 +208,17 @@ prop('C20', units=['config', 'context', 'round', 'div'], level='proof',
                  'cannot be proved equal to an arbitrary symbol'),
      level_note=_NOTE_COMMON + ' build.rs itself (a separate program that formats env strings) is assumed to emit what it parsed; exp is excluded (C13); sqrt/cbrt/inverse/Display default-context forms are added as their units are built.',
      technique=_TECH + '; configuration constants as uninterpreted symbols')
+
+prop('C16', units=['fmt', 'insig', 'round', 'config'], level='proof',
+     level_text=('PARTIAL. Verus proves on the real bodies: round_ascii_digits (the digit string kept, times the power of ten of the digits removed beyond the rounding '
+                 'position, equals round_mag of the big-endian ASCII number at that position under the mode and sign of the rounder -- carry past nines and all-nines overflow '
+                 'included), the insignificant-digit data with its lazily evaluated trailing-zero flag, default_with_sign using the configured default mode (symbolic), and '
+                 'format_ascii_digits_no_integer: output length and decimal point for every input, and for a rounding point at or left of the first stored digit the printed value is '
+                 'round_mag (0 or 1) at that place. The same oracle round_mag decides with_scale_round (C06), which is the agreement the property demands. NOT decided: the '
+                 'interior-rounding branch of format_ascii_digits_no_integer beyond safety, format_ascii_digits_with_integer_and_fraction, zero_right_pad_integer_ascii_digits, '
+                 'the exponential forms, and flag handling (delegated to std pad_integral)'),
+     level_note=_NOTE_COMMON + ' Vec helpers fill_slice(&mut v[..n]) and copy_within(..a, i) are replaced by shim helpers with assumed contracts (R6).',
+     technique=_TECH)
 
 prop('C18', units=['pow10', 'core', 'canon', 'scale', 'digits'], level='proof',
      hooks=[_h.kani_hook(['a1_digit_estimate', 'diff_i64'])],
